@@ -10,7 +10,7 @@ TIE_EXACT_ONLY = True
 
 PROP = {
     "id": "C13",
-    "quick_n": 220,
+    "quick_n": 400,
     "thorough_n": 5000,
     "rule": "one program = a Bin, SparselyBin, CentrallyBin or IrregularlyBin over field 0 (dyadic and "
             "non-dyadic widths, negative sparse indexes), a fill set over its critical values, the "
